@@ -326,6 +326,9 @@ def config_text(case, with_other=True, with_bias=True):
         L += ["histogram {", "  name h", "  colvars v", "}"]
     if with_bias:
         L += bias_block(case)
+    if case.get("bias2") is not None:
+        # a second bias on the same variable: the forces add up, and the variable keeps applying a force while the first one is off
+        L += ["linear {", "  name b2", "  colvars v", "  centers 0.0", "  forceConstant %r" % case["bias2"], "}"]
     return L
 
 
@@ -335,6 +338,8 @@ def scenario(case, k):
         L.append("mass %d %s" % (i + 1, hx(m)))
     L += ["temperature %r" % case["T"], "samestep %d" % case["same"], "includecv %d" % case["inc"], "totalforces 1",
           ("cell %r %r %r" % tuple(case["cell"])) if case.get("cell") else "nocell", "new"]
+    if case.get("it0"):
+        L.append("setstep %d" % case["it0"])
     late = case.get("late", 0)
     if late:
         # the variable is defined while the simulation runs: `late` steps with another variable only
@@ -356,6 +361,10 @@ def scenario(case, k):
                 L += ["config EOF"] + bias_block(case) + ["EOF"]
             else:
                 L.append("script cv bias b delete")
+        if s.get("badcfg"):
+            # a configuration that is rejected in the middle of the session must leave the variable as it was
+            L += ["echo BADCFG", "config EOF", "colvar {", "  name bad", "  outputTotalForce on", "  distance {", "    group1 {", "      atomNumbers 99999", "    }",
+                  "    group2 {", "      atomNumbers 1", "    }", "  }", "}", "EOF"]
         if "T" in s:
             L.append("temperature %r" % s["T"])          # the engine changes its target temperature between two steps
         if "subset" in s:
@@ -395,6 +404,10 @@ def parse_impl(lines):
         if l.startswith("echo END"):
             cs["complete"] = True
             cur = None
+        elif l.startswith("echo BADCFG"):
+            cs["skipcfg"] = True
+        elif w[0] == "CONFIG" and cs.pop("skipcfg", False):
+            cs["badcfg_seen"] = l
         elif w[0] == "CONFIG":
             cs["config"] = l if (cs["config"] is None or "err=ok" in cs["config"]) else cs["config"]
         elif w[0] == "STEP":
@@ -441,7 +454,7 @@ def periodic(case):
 
 def applies(case, t):
     """some bias applies a force to the variable at step t (f_cv_apply_force)"""
-    return case["bias"]["type"] != "none" and not case["steps"][t].get("off")
+    return (case["bias"]["type"] != "none" and not case["steps"][t].get("off")) or case.get("bias2") is not None
 
 
 def bias_force(case, value):
@@ -510,7 +523,8 @@ def model_line(case, isteps):
     for t, s in enumerate(case["steps"]):
         p.append(vl(s["pos"]))
         p.append(vl(step_eforce(case, isteps, t)))
-        p.append(hx(bias_force(case, isteps[t]["cv"].get("v", float("nan"))) if applies(case, t) else 0.0))
+        fb1 = bias_force(case, isteps[t]["cv"].get("v", float("nan"))) if (case["bias"]["type"] != "none" and not s.get("off")) else 0.0
+        p.append(hx(fb1 + (-case["bias2"] if case.get("bias2") is not None else 0.0)))
         p.append("1" if applies(case, t) else "0")
         p += [hx(BOLTZ * T_at(case, t)), "1" if case["hide"] else "0", "1" if sub_at(case, t) else "0"]
         for ci in rot_indices(case):
@@ -640,7 +654,7 @@ def inverse_ok(case):
 
 def gen_case(r, idx, typ=None, kinds=None):
     typ = typ or r.choice(["INV", "INV", "LIN", "LOC", "TIM", "RND", "OFF", "PAR"])
-    ncomp = 1 if r.random() < 0.7 else 2
+    ncomp = r.choice([1, 1, 1, 1, 1, 1, 2, 2, 2, 3])
     kinds = kinds or [r.choice(KINDS) for _ in range(ncomp)]
     overlap = typ == "RND" and r.random() < 0.3
     nvar = sum(BLOCK.get(k, 5) for k in kinds)
@@ -656,6 +670,10 @@ def gen_case(r, idx, typ=None, kinds=None):
         c, _ = gen_comp(r, k, list(range(a0, a0 + nk)), overlap)
         a0 += nk
         comps.append(c)
+    if len(comps) == 3:
+        cs = r.choice([[1.0, -1.0, 1.0], [-1.0, -1.0, -1.0], [1.0, 2.0, 1.0], [1.0, 1.0, -1.0], [0.5, 1.0, 0.5]])    # the odd one in the middle
+        for c_, k_ in zip(comps, cs):
+            c_["coeff"] = k_
     if len(comps) == 2:
         cs = r.choice([[1.0, 1.0], [1.0, -1.0], [-1.0, 1.0], [-1.0, -1.0], [2.0, -0.5], [0.5, 1.0]])
         comps[0]["coeff"], comps[1]["coeff"] = cs
@@ -693,8 +711,10 @@ def gen_case(r, idx, typ=None, kinds=None):
                 return p
         return None
 
+    fscale = 2.0 ** 26 if r.random() < 0.1 else 1.0        # engine forces eight orders of magnitude larger
+
     def field(on=None):
-        return [rfor(r) if (on is None or (a + 1) in on) else [0.0, 0.0, 0.0] for a in range(n)]
+        return [vsc(fscale, rfor(r)) if (on is None or (a + 1) in on) else [0.0, 0.0, 0.0] for a in range(n)]
 
     zero = [[0.0, 0.0, 0.0] for _ in range(n)]
     P = [geometry() for _ in range(4)]
@@ -762,13 +782,22 @@ def gen_case(r, idx, typ=None, kinds=None):
         case["offmode"] = r.choice(["toggle", "toggle", "tsf", "define"])
         pat = r.choice([[0, 1, 0, 0, 1, 1, 0], [0, 0, 1, 0, 1, 0], [1, 0, 0, 1, 1, 0]])
         if case["offmode"] == "tsf":
-            case["tsf"] = 2
+            case["tsf"] = r.choice([2, 3, 5])          # also factors that are not powers of two
             case.pop("late", None)
-            pat = [0, 1, 0, 1, 0, 1, 0]            # awake at the even steps of the run
+            pat = [0 if i % case["tsf"] == 0 else 1 for i in range(7)]     # awake when step_absolute is a multiple of the factor
         steps = [{"pos": P[i % 4], "ef": (zero if r.random() < 0.5 else field()), "off": bool(o)} for i, o in enumerate(pat)]
     else:
         steps = [{"pos": P[i % 4], "ef": field() if r.random() < 0.7 else zero} for i in range(r.randint(2, 5))]
     case["steps"] = steps
+    if typ in ("INV", "OFF", "TIM", "RND", "PAR") and not periodic(case) and r.random() < 0.2:
+        case["bias2"] = V.dyadic(r, -3, 3, bits=2) or 1.5
+    if r.random() < 0.2:
+        # absolute step numbers beyond 2^31, 2^32, 2^53 and near 2^62
+        case["it0"] = r.choice([2 ** 31 - 2, 2 ** 31 + 3, 2 ** 32 + 5, 2 ** 53 + 1, 2 ** 62 - 9])
+        if case.get("tsf"):
+            case["it0"] -= case["it0"] % case["tsf"]        # keep the bias awake at the first step of the pattern
+    if typ in ("LIN", "LOC", "TIM", "RND", "INV") and r.random() < 0.15 and len(steps) > 2:
+        steps[r.randint(1, len(steps) - 1)]["badcfg"] = True
     case["invok"] = inverse_ok(case)
     return case
 
@@ -825,6 +854,7 @@ def div_case(r, kind, rotate=False):
     c.update({"type": "DIV", "T": 0.0, "hide": False, "sub": False, "same": 1, "inc": 0, "bias": {"type": "none"}, "invok": False})
     c.pop("tsf", None)
     c.pop("offmode", None)
+    c.pop("bias2", None)
     n = c["n"]
     P = c["steps"][0]["pos"]
     zero = [[0.0, 0.0, 0.0] for _ in range(n)]
@@ -988,7 +1018,7 @@ def oracle_twin(case, isteps, twin_steps):
             exp = 0.0
         else:
             exp = on[t - 1]["af"]["v"] + (doc_fj(case, case["steps"][t - 1]["pos"]) if (case["hide"] and applies(case, t - 1)) else 0.0)
-        if not close(a - b, exp, 1e-8):
+        if abs((a - b) - exp) > 1e-8 * max(1.0, abs(a), abs(b), abs(exp)):       # relative to the magnitude of the two reports
             out.append(("subtract:%s:%s%s" % (kd, "samestep" if case["same"] else "lagged", ":hidden" if case["hide"] else ""),
                         "step %d: total force without / with subtractAppliedForce %r / %r, difference %r; Colvars' own applied force "
                         "of the step reported is %r" % (t, a, b, a - b, exp)))
@@ -1070,6 +1100,15 @@ def process(run, runner, cases, sample=0):
         mode = "samestep" if c["same"] else "lagged"
         run.dist("type:%s" % c["type"])
         run.dist("mode:%s" % mode)
+        for key, on in (("option:step>=2^31", c.get("it0")), ("option:second-bias", c.get("bias2") is not None),
+                        ("option:rejected-config-mid-run", any(st.get("badcfg") for st in c["steps"])),
+                        ("option:3-components", len(c["comps"]) == 3), ("option:timeStepFactor-%s" % c.get("tsf"), c.get("tsf")),
+                        ("option:offmode-%s" % c.get("offmode"), c.get("offmode")), ("option:forceNoPBC", c.get("nopbc")),
+                        ("option:late-definition", c.get("late")), ("option:no-bias", c["bias"]["type"] == "none"),
+                        ("option:temperature-change", any("T" in st for st in c["steps"])),
+                        ("option:subtract-toggled", any("subset" in st for st in c["steps"]))):
+            if on:
+                run.dist(key)
         for cc in c["comps"]:
             run.dist("kind:%s%s" % (cc["kind"], ":onesite" if cc.get("onesite") else ""))
             if cc.get("perms"):
@@ -1092,6 +1131,8 @@ def process(run, runner, cases, sample=0):
         if "err=ok" not in cs["config"] or len(cs["steps"]) != len(c["steps"]) or any(s["err"] != "err=ok" for s in cs["steps"]):
             run.mismatch("config:%s" % kd, {"case": c}, [cs["config"]] + [s["err"] for s in cs["steps"]], "accepted, all steps ok")
             continue
+        if any(st.get("badcfg") for st in c["steps"]) and "err=ok" in (cs.get("badcfg_seen") or "err=ok"):
+            run.mismatch("config:rejected:%s" % kd, {"case": c}, cs.get("badcfg_seen"), "the invalid configuration is rejected")
         isteps = cs["steps"]
         nontriv = c.get("invok", False) and any(delivered_is_own(c, t) is not None for t in range(len(isteps))) or c["type"] in ("LIN", "LOC", "TIM", "ZERO", "ROT", "OFF", "DIV", "PAR")
         run.count(json.dumps(c, sort_keys=True), bool(nontriv) and any(s["tf"].get("v") not in (None, 0.0) for s in isteps))
